@@ -109,6 +109,15 @@ CLAIMED = {
             note="Trusted: Coq kernel, extraction+driver, harness (matcher for the documented normalisation). json/gzip and Table.insert (C17) are used as they are; minimize's binary64 rounding is compared with the exact-rational model up to near-ties; "
                  "registered reward objects are expected back as the JSON form coba.json gives them; field names are str/int and distinct after str() within a row. Open finding: an evaluation whose rows all have no fields reads back with zero rows.",
             technique="Coq proof (pack/unpack round trip by induction, rational rounding bound) + extracted-model correspondence + end-to-end normalisation oracle on real runs", design="§5 C07"),
+ "C12": dict(text="Coq theorems (C12/Props.v): delim_chunk_invariant - for ANY cutting of a text into pieces (empty ones, a CR LF pair cut in two, pieces ending in any of CPython's line boundaries) DelimSource's re-assembly equals splitlines of the whole text "
+                  "(inductive invariant relating the pending line / CR flag to a character automaton); utf8_chunk_invariant - grouping bytes into characters with one decoder state carried across chunks is chunking-independent (per-chunk decoding refuted); "
+                  "disk_roundtrip - CR/LF-free lines written by DiskSink in any batching are read back identically; split_join, libsvm_roundtrip - the LibSVM/Manik grammar parses what the printer wrote; csv_roundtrip - the csv automaton parses RFC-4180 minimal quoting back to the cells; "
+                  "source_constants - the separators/terminators/strip sets and the decoder shape are those the translator extracted from the source on this run. Extracted models are compared with DelimSource, _byte_it_ (identity/gzip/deflate, chunk sizes 1-40), "
+                  "DiskSink/DiskSource (plain/.gz), LibsvmReader/ManikReader and CsvReader; a table oracle compares printed tables with the parsed rows for LibSVM, Manik, CSV and ARFF dense/sparse in the Weka/OpenML dialect and in variant spellings (same table or an error).",
+            note="PARTIAL for ARFF: there is no Gallina model of ArffReader (regex splitting, csv dialect detection, fallback parser); ARFF is decided by the table oracle only. Trusted: Coq kernel, translator (statement templates, fails closed), extraction+driver, harness printers "
+                 "(Weka quoting, RFC-4180), zlib/gzip, the codec's code-point arithmetic, Python's csv module (re-implemented for one dialect and compared), int()/float(). A line handed to DiskSink contains no CR/LF; an embedded CSV line break reads back as \\n. "
+                 "Open findings: a quoted '?' value reads as missing; tab separated ARFF with a comma inside a quoted value can be misread.",
+            technique="Coq proof (automaton invariants, round-trip inductions) over translator-checked constants + extracted-model correspondence + printed-table oracle", design="§5 C12"),
 }
 NA_REASON = "check not built yet in this revision (planned, see DESIGN.md §8); no claim is made"
 def main():
